@@ -36,6 +36,29 @@ pub enum Node {
     While { body: Vec<Node> },
     Repeat { n: u32, body: Vec<Node> },
     Exec { proc_: usize },
+    /// `call.c::c<k>`: a call (not inlined, new context) of the library procedure `lib::c::c<k>`,
+    /// whose body is `add.<CALL_ADD[k]>` on the accumulator. A body is a body: `exec` of a procedure
+    /// containing calls must still behave like the pasted body, including at run time.
+    CallLeaf(u8),
+}
+
+pub const CALL_ADD: [u64; 4] = [11, 1_000_003, 4_294_967_311, 77];
+
+/// source of the module `lib::c` used by `CallLeaf`
+pub fn call_lib_src() -> String {
+    CALL_ADD.iter().enumerate().map(|(k, a)| format!("export.c{k}\n  add.{a}\nend\n")).collect()
+}
+
+pub fn uses_call(p: &FlowProg) -> bool {
+    fn go(p: &FlowProg, b: &[Node]) -> bool {
+        b.iter().any(|n| match n {
+            Node::CallLeaf(_) => true,
+            Node::If { then_, else_ } => go(p, then_) || else_.as_ref().map(|e| go(p, e)).unwrap_or(false),
+            Node::While { body } | Node::Repeat { body, .. } => go(p, body),
+            _ => false,
+        })
+    }
+    go(p, &p.main) || p.procs.iter().any(|pr| go(p, &pr.body))
 }
 
 #[derive(Clone, Debug)]
@@ -107,6 +130,10 @@ pub struct RefOutcome {
     pub execs: Vec<(bool, bool)>,
     pub repeats: Vec<u32>,
     pub leaves: usize,
+    /// executed `call` leaves
+    pub calls: usize,
+    /// ... of which inside an exec'd imported procedure
+    pub calls_in_imported: usize,
     pub script_exhausted: bool,
 }
 
@@ -117,6 +144,7 @@ struct GenCtx<'a> {
     rng: &'a mut Rng8,
     next_marker: u32,
     allow_stackmark: bool,
+    allow_call: bool,
 }
 
 fn gen_body(g: &mut GenCtx, budget: usize, callable: &[usize], locals: u16, max_items: usize) -> Vec<Node> {
@@ -151,6 +179,8 @@ fn leaf(g: &mut GenCtx, locals: u16) -> Node {
         Node::LocSet(g.rng.gen_range(0..locals))
     } else if locals > 0 && r < 40 {
         Node::LocGet(g.rng.gen_range(0..locals))
+    } else if g.allow_call && (40..52).contains(&r) {
+        Node::CallLeaf(g.rng.gen_range(0..CALL_ADD.len() as u8))
     } else if g.allow_stackmark && r < 55 {
         g.next_marker += 1;
         Node::StackMark(g.next_marker)
@@ -176,7 +206,8 @@ pub fn expanded_size(p: &FlowProg, body: &[Node]) -> usize {
 pub fn gen_prog(rng: &mut Rng8) -> FlowProg {
     loop {
         let allow_stackmark = rng.gen_range(0..3) == 0;
-        let mut g = GenCtx { rng, next_marker: 0, allow_stackmark };
+        let allow_call = rng.gen_range(0..2) == 0;
+        let mut g = GenCtx { rng, next_marker: 0, allow_stackmark, allow_call };
         let n_lib = g.rng.gen_range(0..=2usize);
         let n_loc = g.rng.gen_range(0..=3usize);
         let mut prog = FlowProg::default();
@@ -291,6 +322,7 @@ impl<'a> Renderer<'a> {
                     Self::line(out, ind, "end");
                 }
             }
+            Node::CallLeaf(k) => Self::line(out, ind, &format!("call.c::c{k}")),
             Node::Exec { proc_ } => {
                 let pr = &self.p.procs[*proc_];
                 if self.v.inline {
@@ -323,8 +355,15 @@ pub fn render(p: &FlowProg, v: Variant) -> (String, Option<String>) {
     let has_lib = p.procs.iter().any(|x| x.imported) && !v.inline;
     let mut lib = String::new();
     let mut src = String::new();
+    let calls = uses_call(p);
     if has_lib {
         src.push_str("use.lib::m\n");
+    }
+    if calls {
+        src.push_str("use.lib::c\n");
+        if has_lib {
+            lib.push_str("use.lib::c\n");
+        }
     }
     if !v.inline {
         for (pi, pr) in p.procs.iter().enumerate() {
@@ -355,6 +394,7 @@ pub fn signature(p: &FlowProg) -> String {
                 Node::StackMark(_) => out.push('s'),
                 Node::LocSet(_) => out.push('w'),
                 Node::LocGet(_) => out.push('r'),
+                Node::CallLeaf(_) => out.push('c'),
                 Node::If { then_, else_ } => {
                     out.push_str("I(");
                     go(p, then_, out, depth + 1);
@@ -417,6 +457,8 @@ struct Eval<'a> {
     out: RefOutcome,
     /// remaining iterations planned for the loops currently being generated
     plan: Vec<usize>,
+    /// nesting depth of exec'd imported procedures
+    imp_depth: usize,
 }
 
 fn fmul(a: u64, b: u64) -> u64 {
@@ -510,6 +552,15 @@ impl<'a> Eval<'a> {
                     *self.acc() = fadd(a, frame[*i as usize]);
                     self.out.leaves += 1;
                 }
+                Node::CallLeaf(k) => {
+                    let a = *self.acc();
+                    *self.acc() = fadd(a, CALL_ADD[*k as usize]);
+                    self.out.leaves += 1;
+                    self.out.calls += 1;
+                    if self.imp_depth > 0 {
+                        self.out.calls_in_imported += 1;
+                    }
+                }
                 Node::If { then_, else_ } => {
                     let v = self.next(DecKind::If, depth)?;
                     if v == 1 {
@@ -545,7 +596,13 @@ impl<'a> Eval<'a> {
                     // a fresh frame of locals, initialised by the procedure's prologue
                     let mut fr: Vec<u64> = (0..pr.locals).map(|i| pr.local_init(*proc_, i)).collect();
                     self.out.leaves += pr.locals as usize;
+                    if pr.imported {
+                        self.imp_depth += 1;
+                    }
                     self.body(&pr.body, depth + 1, &mut fr)?;
+                    if pr.imported {
+                        self.imp_depth -= 1;
+                    }
                 }
             }
         }
@@ -560,7 +617,7 @@ pub fn evaluate(p: &FlowProg, stack_in: &[u64], src: Source) -> (RefOutcome, Vec
         stack.push(0);
     }
     stack.reverse();
-    let mut e = Eval { p, src, stack, out: RefOutcome::default(), plan: vec![] };
+    let mut e = Eval { p, src, stack, out: RefOutcome::default(), plan: vec![], imp_depth: 0 };
     let mut frame = vec![];
     let _ = e.body(&p.main, 1, &mut frame);
     let mut st = e.stack.clone();
